@@ -451,7 +451,9 @@ func NewSecurityManager() *SecurityManager {
 
 // ClientHandshake performs a client-side security handshake on the given stream
 func (sm *SecurityManager) ClientHandshake(ctx context.Context, s *stream.Stream) error {
-	auth := NewAuthenticator(sm.config, s)
+	// per-handshake copy: NewAuthenticator writes the ephemeral ECDH key into its config
+	cfg := *sm.config
+	auth := NewAuthenticator(&cfg, s)
 	_, err := auth.ClientHandshake(ctx)
 	if err != nil {
 		return err
@@ -463,7 +465,9 @@ func (sm *SecurityManager) ClientHandshake(ctx context.Context, s *stream.Stream
 
 // ServerHandshake performs a server-side security handshake on the given stream
 func (sm *SecurityManager) ServerHandshake(ctx context.Context, s *stream.Stream) error {
-	auth := NewAuthenticator(sm.config, s)
+	// per-handshake copy: NewAuthenticator writes the ephemeral ECDH key into its config
+	cfg := *sm.config
+	auth := NewAuthenticator(&cfg, s)
 	_, err := auth.ServerHandshake(ctx)
 	if err != nil {
 		return err
